@@ -17,7 +17,8 @@
    - attributes are assigned owner by owner from the root of the hierarchy down; an owner
      with a hand-written constructor is CALLED with exactly the keywords for the attributes
      it owns (given or defaulted), whatever it then does;
-   - __post_init__ (the one type(self) resolves to) runs once, after everything else.
+   - __post_init__ (the one type(self) resolves to) runs once, after everything else: it finds
+     every attribute of the final instance set, the overflow attribute included.
 
    Shared with the model as primitives: the MRO, the preparation of one value
    ([prepare_value]: preparer, normalisation, type check) and the callback pool. *)
@@ -230,7 +231,8 @@ Section Spec.
 
   Record outcome := mkout {
     o_dict : list (aid * aval);      (* instance attributes in assignment order *)
-    o_post : list cid;               (* __post_init__ bodies that ran *)
+    o_post : list (cid * list aid);  (* __post_init__ bodies that ran, each with the attribute
+                                        names it found set on the instance *)
     o_hand : list cid;               (* hand-written constructors that ran *)
   }.
 
@@ -275,7 +277,9 @@ Section Spec.
                                | Some o => assign o (ADict unknown) d
                                | None => Ok d end) with
                         | Err e => Err e
-                        | Ok d' => Ok (mkout d' post_of hc)
+                        | Ok d' =>
+                            (* the hook runs last: it finds every attribute set, overflow included *)
+                            Ok (mkout d' (map (fun c => (c, map fst d')) post_of) hc)
                         end
                     end
                 end
